@@ -324,6 +324,42 @@ fn journal_digest(dir: &std::path::Path) -> u64 {
     h.finish()
 }
 
+/// A compaction filter that keeps everything: assigning it to a keyspace name must not change any option.
+struct KeepAll;
+impl fjall::compaction::filter::CompactionFilter for KeepAll {
+    fn filter_item(
+        &mut self,
+        _item: fjall::compaction::filter::ItemAccessor<'_>,
+        _ctx: &fjall::compaction::filter::Context,
+    ) -> Result<fjall::compaction::filter::Verdict, fjall::LsmError> {
+        Ok(fjall::compaction::filter::Verdict::Keep)
+    }
+}
+struct KeepAllFactory;
+impl fjall::compaction::filter::Factory for KeepAllFactory {
+    fn name(&self) -> &str {
+        "fjv-keep-all"
+    }
+    fn make_filter(&self, _ctx: &fjall::compaction::filter::Context) -> Box<dyn fjall::compaction::filter::CompactionFilter> {
+        Box::new(KeepAll)
+    }
+}
+
+/// Opens the database; with `with_filters` a compaction filter factory (keep everything) is assigned to the
+/// keyspace names with an even index through the builder.
+fn open_db(dir: &std::path::Path, with_filters: bool) -> fjall::Result<Database> {
+    let b = Database::builder(dir).worker_threads_unchecked(0);
+    if with_filters {
+        b.with_compaction_filter_factories(std::sync::Arc::new(|name: &str| {
+            let even = name.strip_prefix('o').and_then(|x| x.parse::<u32>().ok()).is_some_and(|i| i % 2 == 0);
+            even.then(|| std::sync::Arc::new(KeepAllFactory) as std::sync::Arc<dyn fjall::compaction::filter::Factory>)
+        }))
+        .open()
+    } else {
+        b.open()
+    }
+}
+
 fn case(idx: u64, seed: u64, stats: &mut Counts) -> R<(String, bool)> {
     let mut rng = Rng::new(mix(&[seed, idx, 0x16]));
     let sane = rng.chance(1, 2);
@@ -332,10 +368,12 @@ fn case(idx: u64, seed: u64, stats: &mut Counts) -> R<(String, bool)> {
         let n = rng.range(1, 3) as usize;
         let mut specs: Vec<(String, Spec, Vec<(Vec<u8>, Vec<u8>)>)> = Vec::new();
         {
-            let db = Database::builder(&dir)
-                .worker_threads_unchecked(0)
-                .open()
-                .map_err(|e| Deviation::new("unexpected-error:open", format!("{e:?}")))?;
+            // every session decides independently whether filter factories are assigned (1 in 3)
+            let with_filters = rng.chance(1, 3);
+            if with_filters {
+                stats.inc("sessions_with_filter_assigner");
+            }
+            let db = open_db(&dir, with_filters).map_err(|e| Deviation::new("unexpected-error:open", format!("{e:?}")))?;
             for i in 0..n {
                 let name = format!("o{i}");
                 let mut r2 = rng.fork();
@@ -374,10 +412,11 @@ fn case(idx: u64, seed: u64, stats: &mut Counts) -> R<(String, bool)> {
         }
         let reopens = rng.range(1, 2);
         for round in 0..reopens {
-            let db = Database::builder(&dir)
-                .worker_threads_unchecked(0)
-                .open()
-                .map_err(|e| Deviation::new("options:reopen-failed", format!("reopen {round}: {e:?}")))?;
+            let with_filters = rng.chance(1, 3);
+            if with_filters {
+                stats.inc("sessions_with_filter_assigner");
+            }
+            let db = open_db(&dir, with_filters).map_err(|e| Deviation::new("options:reopen-failed", format!("reopen {round}: {e:?}")))?;
             for (name, spec, stored) in &specs {
                 // pass different options on purpose
                 let mut r3 = rng.fork();
